@@ -271,6 +271,12 @@ class Analyzer:
             self._cfgs[f.qual] = g
         return g
 
+    def is_generator(self, f: FuncInfo) -> bool:
+        c = self.__dict__.setdefault("_gen_cache", {})
+        if f.qual not in c:
+            c[f.qual] = any(isinstance(x, (ast.Yield, ast.YieldFrom)) for x in self.scope(f)._own_nodes())
+        return c[f.qual]
+
     def hide_spliced_helpers(self) -> Set[str]:
         """Build every CFG; helpers (functions outside the frozen table) whose every mention in the package is a call that
         was spliced into the caller are analysed only in place and are dropped from `prog.all_functions()`."""
@@ -443,7 +449,8 @@ class Builder:
             n.user = True
             out.append(("x", (EXCEPTION, False)))
         elif cal.kind == "pkg":
-            if all(not t.is_async for t in cal.targets):
+            if all(not t.is_async for t in cal.targets) and not any(self.an.is_generator(t) for t in cal.targets):
+                # (calling an async function or a generator function only creates the coroutine / generator object)
                 s = self.an.callee_summary(cal)
                 n.user = s.user
                 n.suspends = False
